@@ -34,7 +34,7 @@ def rank (x : Conn) : Nat :=
   | .registered => 15 | .closingCheck0 => 14 | .tlsHandshake => 13 | .idleRead => 12
   | .requestRead => 11 | .closingCheck => 10 | .roundTrip => 9
   | .awaitOrigin => if x.answered then 7 else 8
-  | .writeResponse => 6 | .writing => 5 | .tunnel => 5 | .deferredClose => 2 | .counterDec => 1
+  | .writeResponse => 6 | .writing => 5 | .tunnel => 5 | .deferredClose => 3 | .closingSock => 2 | .counterDec => 1
   | _ => 0
 
 /-- what a drain step leaves alone -/
@@ -58,7 +58,7 @@ theorem step_conn_of {s : State} {c : ConnId} {a : CAct} {x : Conn} {e : Eff}
 /-- the steps used to drain a connection -/
 def drainAct : CAct → Bool
   | .check0 | .tlsFail | .idleFail | .firstByte | .readFail | .readDone | .check | .forward
-  | .respReady | .writeHeadFail | .writeFail | .tunnelEnd | .sockClose | .counterDec => true
+  | .respReady | .writeHeadFail | .writeFail | .tunnelEnd | .closeStart | .closeDone | .counterDec => true
   | _ => false
 
 theorem cstep_drain {cl lf : Bool} {y x : Conn} {a : CAct} {e : Eff}
@@ -105,7 +105,8 @@ theorem drain_step {s : State} {c : ConnId}
       case writeResponse => exact ⟨.writeHeadFail, rfl, by simp [cstep, hpc, hg]⟩
       case writing => exact ⟨.writeFail, rfl, by simp [cstep, hpc, hg]⟩
       case tunnel => exact ⟨.tunnelEnd, rfl, by simp [cstep, hpc, hg]⟩
-      case deferredClose => exact ⟨.sockClose, rfl, by simp [cstep, hpc]⟩
+      case deferredClose => exact ⟨.closeStart, rfl, by simp [cstep, hpc]⟩
+      case closingSock => exact ⟨.closeDone, rfl, by simp [cstep, hpc]⟩
       case counterDec => exact ⟨.counterDec, rfl, by simp [cstep, hpc]⟩
     obtain ⟨a, hda, hsome⟩ := hex
     obtain ⟨⟨x, e⟩, hxe⟩ := Option.isSome_iff_exists.mp hsome
